@@ -519,6 +519,7 @@ fn op_shape(before: &str, model: &Content, op: &Op) -> String {
     }
 }
 
+pub const EXOTIC_NAMES: [&str; 8] = ["X-C#-Version", "a#", "Foo~", "~", "x;y", "9", "a-", "!#$%&'()*+,./<=>?@[\\]^_`{|}"];
 pub const POOL: [&str; 7] = ["New", "X-A", "Depends", "b", "Source", "depends", "B"];
 
 pub fn gen_value(r: &mut Rng, uniq: &mut u32) -> String {
@@ -539,6 +540,11 @@ pub fn gen_field_op(r: &mut Rng, model: &Content, uniq: &mut u32) -> Option<Op> 
     let p = *r.pick(&cands);
     let mut names: Vec<String> = model[p].iter().map(|(k, _)| k.clone()).collect();
     names.extend(POOL.iter().map(|s| s.to_string()));
+    // "any valid field name": every printable ASCII character except ':' and blank may occur after the first one
+    // ('#' and '-' only not in front), up to '~'
+    if r.chance(1, 5) {
+        names.push(r.pick_s(&EXOTIC_NAMES).to_string());
+    }
     let name = r.pick(&names).clone();
     Some(match r.below(4) {
         0 => Op::Set { p, name, value: gen_value(r, uniq) },
